@@ -19,7 +19,8 @@ FeatureSets == { [name |-> "default",    flags |-> ""],
                  [name |-> "all",        flags |-> "--all-features"],
                  [name |-> "harness+serde", flags |-> "@harness-serde"] }
 
-Levels == {"0.001", "0.5", "0.95", "0.9999"}
+Levels == {"0.001", "0.01", "0.05", "0.1", "0.2", "0.25", "0.3", "0.5", "0.75", "0.8", "0.9", "0.95", "0.975", "0.99", "0.995",
+           "0.998", "0.999", "0.9995", "0.9999", "0.007", "0.101", "0.333", "0.57", "0.123456789"}
 CKinds == {"two", "upper", "lower"}
 IKinds == {"two", "up", "low"}
 ElemTypes == {"f64", "i32", "String"}
@@ -32,6 +33,11 @@ Next == /\ ~done
            THEN \A fs \in FeatureSets : Emit([op |-> "build", name |-> fs.name, flags |-> fs.flags])
            ELSE /\ \A k \in CKinds, l \in Levels :
                      Emit([op |-> "serde.conf", c |-> [kind |-> k, level |-> [dec |-> l]]])
+                \* states with more than 2^32 observations (counts are usize), below and above the boundary
+                /\ \A nb \in {[a |-> 1, p |-> 31], [a |-> 1, p |-> 32], [a |-> 5, p |-> 31], [a |-> 3, p |-> 40]} :
+                     Emit([op |-> "serde.state", kind |-> "prop", nbig |-> nb, k |-> 17, doublings |-> 0])
+                /\ \A kd \in {"arith", "arith32", "geo", "harm", "paired", "unpaired"} : \A dbl \in {0, 5, 30, 31, 34} :
+                     Emit([op |-> "serde.state", kind |-> kd, doublings |-> dbl])
                 /\ \A k \in IKinds, ty \in ElemTypes, lo \in 0..2, hi \in 0..2 : lo <= hi =>
                      Emit([op |-> "serde.interval", ty |-> ty, n |-> 3,
                            a |-> CASE k = "two" -> [k |-> k, lo |-> lo, hi |-> hi]
